@@ -226,6 +226,22 @@ def e(ctx):
     ctx.need(len(stores_to_any(ctl, "_recent_messages")) == 1, "positive control for the writer scan failed")
 
 
+@R.clause("C04.f", "identifiers are remembered for EXCHANGE_LIFETIME as RFC 7252 defines it: the derived spans equal the section 4.8.2 formulas (shared with C03.g)")
+def f_shared(ctx):
+    from . import c03
+    c03.g(ctx)
+
+
+@R.clause("C04.g", "the reply recorded for duplicates is an object of its own: the fallback 5.00 is built afresh for every failing request (shared with C09.a)")
+def g_shared(ctx):
+    """The value stored in _recent_messages is the very Message object that was sent; token, remote, type and message
+    ID are written into it in place.  An independently written breaking change made error_to_message hand out one
+    cached Message for every non-renderable failure, so the stored reply of an earlier request silently became the
+    reply to a later one.  The obligations are those of C09.a (each failure path builds its own bare 5.00)."""
+    from . import c09
+    c09.a(ctx)
+
+
 F_MM = "aiocoap/messagemanager.py"
 R.seed("C04.a", F_MM, "        key = (message.remote, message.mid)\n        if key in self._recent_messages:\n            if message.mtype is CON:", "        key = message.mid\n        if key in self._recent_messages:\n            if message.mtype is CON:", "keyed by mid only")
 R.seed("C04.a", F_MM, "        key = (message.remote, message.mid)\n        if key in self._recent_messages:\n            self._recent_messages[key] = message", "        key = (message.mid, message.remote)\n        if key in self._recent_messages:\n            self._recent_messages[key] = message", "components swapped on one side")
@@ -240,3 +256,5 @@ R.seed("C04.c", F_MM, "            if message.mtype is CON:\n                if 
 R.seed("C04.d", F_MM, "        self._store_response_for_duplicates(message)\n\n        self._send_via_transport(message)", "        self._send_via_transport(message)", "reply never recorded")
 R.seed("C04.d", F_MM, "        if key in self._recent_messages:\n            self._recent_messages[key] = message", "        if True:\n            self._recent_messages[key] = message", "entries without expiry")
 R.seed("C04.e", F_MM, "        self.log.debug(\"Exchange removed, message ID: %d.\", message.mid)\n", "        self.log.debug(\"Exchange removed, message ID: %d.\", message.mid)\n        self._recent_messages.pop(key, None)\n", "foreign writer forgets the identifier early")
+
+R.seed("C04.f", "aiocoap/numbers/constants.py", "        return self.ACK_TIMEOUT\n", "        return self.EMPTY_ACK_DELAY\n", "PROCESSING_DELAY 0.1 s: EXCHANGE_LIFETIME shrinks to 245.1 s")
